@@ -96,3 +96,79 @@ Proof.
            sayama_evoloop).
   vm_compute. reflexivity.
 Qed.
+
+(* ================================================================== one statement per clause of the property's
+   parenthesis (Proofs/CTRBLClauses.v); "undefined" = outside the regenerated table *)
+From CPL Require Import Proofs.CTRBLClauses.
+
+(* "8 always becomes 0": all 9^4 neighbour combinations, table entry or default (no hypothesis on the table:
+   an added entry with centre 8 and another image breaks this theorem) *)
+Lemma eight_always_zero : forall t r b l,
+  0 <= t < 9 -> 0 <= r < 9 -> 0 <= b < 9 -> 0 <= l < 9 ->
+  sdsr_call sdsr_table (8, t, r, b, l) = Some 0 /\ evoloop_call evoloop_table (8, t, r, b, l) = Some 0.
+Proof.
+  intros t r b l Ht Hr Hb Hl. split.
+  - apply (eight_always_zero_gen sdsr_table sdsr_call fast_sdsr (fast_sdsr_correct sdsr_table)); try assumption.
+    vm_compute. reflexivity.
+  - apply (eight_always_zero_gen evoloop_table evoloop_call fast_evoloop (fast_evoloop_correct evoloop_table));
+      try assumption.
+    vm_compute. reflexivity.
+Qed.
+
+(* "the 8-neighbour rules" *)
+Lemma eight_neighbour_rules : forall c t r b l,
+  0 <= c < 8 -> 0 <= t < 9 -> 0 <= r < 9 -> 0 <= b < 9 -> 0 <= l < 9 ->
+  next_to 8 [t; r; b; l] = true ->
+  let image := if member c [0; 1]
+               then (if existsb (fun s => next_to s [t; r; b; l]) [2; 3; 4; 5; 6; 7] then 8 else c)
+               else if member c [2; 3; 5] then 0 else 1 in
+  (dict_get (c, t, r, b, l) sdsr_table = None -> sdsr_call sdsr_table (c, t, r, b, l) = Some image) /\
+  (dict_get (c, t, r, b, l) evoloop_table = None -> evoloop_call evoloop_table (c, t, r, b, l) = Some image).
+Proof.
+  intros c t r b l Hc Ht Hr Hb Hl H8 image. unfold image. split; intros Habs.
+  - rewrite sdsr_defaults by (assumption || lia). rewrite sayama_eight_neighbour by (assumption || lia). reflexivity.
+  - rewrite evoloop_defaults by (assumption || lia). rewrite sayama_eight_neighbour by (assumption || lia). reflexivity.
+Qed.
+
+(* "the tube rules" (SDSR) *)
+Lemma sdsr_tube_rules : forall c t r b l image,
+  0 <= c < 8 -> 0 <= t < 9 -> 0 <= r < 9 -> 0 <= b < 9 -> 0 <= l < 9 ->
+  next_to 8 [t; r; b; l] = false -> dict_get (c, t, r, b, l) sdsr_table = None ->
+  tube_rule c [t; r; b; l] = Some image ->
+  sdsr_call sdsr_table (c, t, r, b, l) = Some image.
+Proof.
+  intros c t r b l image Hc Ht Hr Hb Hl H8 Habs Htube.
+  rewrite sdsr_defaults by (assumption || lia). rewrite (sayama_tube c t r b l image) by (assumption || lia). reflexivity.
+Qed.
+
+(* "undefined 0 stays 0" *)
+Lemma undefined_zero_stays_zero : forall t r b l,
+  0 <= t < 9 -> 0 <= r < 9 -> 0 <= b < 9 -> 0 <= l < 9 ->
+  next_to 8 [t; r; b; l] = false ->
+  (dict_get (0, t, r, b, l) sdsr_table = None -> in_tube [t; r; b; l] && next_to 1 [t; r; b; l] = false ->
+   sdsr_call sdsr_table (0, t, r, b, l) = Some 0) /\
+  (dict_get (0, t, r, b, l) evoloop_table = None -> evoloop_call evoloop_table (0, t, r, b, l) = Some 0).
+Proof.
+  intros t r b l Ht Hr Hb Hl H8. split.
+  - intros Habs Htube. rewrite sdsr_defaults by (assumption || lia). rewrite sayama_zero_sdsr by assumption.
+    rewrite Htube. reflexivity.
+  - intros Habs. rewrite evoloop_defaults by (assumption || lia).
+    rewrite sayama_undefined_evoloop by (assumption || lia). reflexivity.
+Qed.
+
+(* "undefined 1-7 become 8" *)
+Lemma undefined_1_7_become_eight : forall c t r b l,
+  1 <= c <= 7 -> 0 <= t < 9 -> 0 <= r < 9 -> 0 <= b < 9 -> 0 <= l < 9 ->
+  next_to 8 [t; r; b; l] = false ->
+  (dict_get (c, t, r, b, l) sdsr_table = None -> tube_rule c [t; r; b; l] = None ->
+   sdsr_call sdsr_table (c, t, r, b, l) = Some 8) /\
+  (dict_get (c, t, r, b, l) evoloop_table = None -> evoloop_call evoloop_table (c, t, r, b, l) = Some 8).
+Proof.
+  intros c t r b l Hc Ht Hr Hb Hl H8.
+  assert ((c =? 0) = false) as E0 by lia.
+  split.
+  - intros Habs Htube. rewrite sdsr_defaults by (assumption || lia).
+    rewrite sayama_undefined_sdsr by (assumption || lia). rewrite E0. reflexivity.
+  - intros Habs. rewrite evoloop_defaults by (assumption || lia).
+    rewrite sayama_undefined_evoloop by (assumption || lia). rewrite E0. reflexivity.
+Qed.
